@@ -350,6 +350,69 @@ func (c *Ctx) ruleC12(m *scanfsm.Machine) {
 		}
 	}
 	c.checkPairs(m)
+	// a body whose length comes from an opaque reader (schema, enum) ends where the reader stopped
+	r.Rule("C12-READER-END", "where a step hands a body to an opaque reader and moves the cursor to its last byte (jump), the state that follows emits the End event of that lexeme at cursor-1 on EVERY byte it accepts: the lexeme is exactly what the reader measured, nothing of the rest of the line", 2)
+	after := map[string]string{} // state after a reader -> lexeme kind it must end
+	for _, st := range m.Steps {
+		for b := 0; b < 256; b++ {
+			for _, o := range m.Trans[st][b] {
+				kind, jumped := "", false
+				for _, e := range o.Effs {
+					if e.K == scanfsm.EFound && strings.HasPrefix(m.EventKinds[e.Ev], "begin:") {
+						kind = strings.TrimPrefix(m.EventKinds[e.Ev], "begin:")
+					}
+					if e.K == scanfsm.EJump {
+						jumped = true
+					}
+				}
+				if jumped && kind != "" && o.Term == scanfsm.TOk {
+					if q := o.FinalStep(); q != "" && q != "<pop>" {
+						after[q] = kind
+					}
+				}
+			}
+		}
+	}
+	var qs []string
+	for q := range after {
+		qs = append(qs, q)
+	}
+	sort.Strings(qs)
+	for _, q := range qs {
+		bad := ""
+		for b := 0; b < 256 && bad == ""; b++ {
+			for _, o := range m.Trans[q][b] {
+				if o.Term == scanfsm.TErr {
+					continue
+				}
+				ok := false
+				if len(o.Effs) > 0 && o.Effs[0].K == scanfsm.EFound && m.EventKinds[o.Effs[0].Ev] == "end:"+after[q] && o.Effs[0].Off == -1 {
+					ok = true
+				}
+				if !ok {
+					bad = fmt.Sprintf("on byte %q the state goes on (%s) without ending the %s lexeme at cursor-1", byte(b), o, after[q])
+				}
+			}
+		}
+		if bad == "" {
+			r.Ok("C12-READER-END", "state "+q, "every accepted byte ends the "+after[q]+" lexeme at the byte before it", c.P.Pos(m.Pos[q]))
+		} else {
+			r.Bad("C12-READER-END", "state "+q, bad+": the lexeme grows beyond what the reader measured (the rest of the line becomes part of the body)", c.P.Pos(m.Pos[q]))
+		}
+	}
+	// the end of the input swallowed while a lexeme is open: the unfinished lexeme is not reported and no error is raised.
+	// The property does not forbid that for malformed input (the lexemes that ARE reported stay inside the file, ordered
+	// and bracketed), so these are observations: the places where a truncated document is not told so by the scanner.
+	r.Rule("C12-EOF-OPEN", "observation: reachable configurations in which the end of the input is consumed without an error while a lexeme is open (its Begin was emitted, its End never is)", 0)
+	open := a.EOFLeavesOpen()
+	seenSt := map[string]bool{}
+	for _, o := range open {
+		if seenSt[o.State] {
+			continue
+		}
+		seenSt[o.State] = true
+		r.Observe("C12-EOF-OPEN", "state "+o.State+" with "+o.Open+" open", "the end of the input is consumed here without an error: the "+o.Open+" lexeme that has begun is dropped (byte trace: "+o.Trace+")", c.P.Pos(m.Pos[o.State]))
+	}
 	if c.R.Tier == "thorough" {
 		c.ruleC12Grammar(m)
 	}
@@ -587,6 +650,26 @@ func (c *Ctx) ruleC08Scanner(m *scanfsm.Machine) {
 		}
 	}
 	a := c.ruleAnalysis(m, map[string]string{}, false)
+
+	// ---- CR LF is one line end
+	r.Rule("C08-CRLF-ONE-LINE-END", "in every reachable configuration of the scanner automaton the byte pair CR LF does what LF alone does: the same events at the same places (counted from the first byte of the line end) and the same behaviour on the bytes that follow (events and errors, one byte of lookahead in the quick tier, two in the thorough tier); where the text of a Description begins is compared by the lexeme open afterwards (the text may begin at the LF of CR LF: core.description trims leading line breaks)", 1)
+	if a != nil {
+		la := 1
+		if c.R.Tier == "thorough" {
+			la = 2
+		}
+		divs := a.LineEndDivergences(la)
+		for i, d := range divs {
+			if i >= 12 {
+				break
+			}
+			r.Bad("C08-CRLF-ONE-LINE-END", fmt.Sprintf("state %s (stack %s, open %q)", d.State, d.Stack, d.Open), fmt.Sprintf("CR LF and LF differ here. LF: %.300s   CR LF: %.300s   (reached by %s)", d.LF, d.CRLF, d.Trace), c.P.Pos(m.Pos[d.State]))
+		}
+		if len(divs) == 0 {
+			r.Ok("C08-CRLF-ONE-LINE-END", "all configurations", fmt.Sprintf("%d explored configurations: CR LF behaves as LF in each", a.Configs), "")
+		}
+		r.Stats["c08_crlf_divergences"] = len(divs)
+	}
 
 	// ---- comments
 	entry := map[string]bool{} // comment entry states
@@ -963,7 +1046,7 @@ func hasAnnotationBegin(m *scanfsm.Machine, st string) bool {
 // ruleUnquote: a parameter lexeme's value is unquoted before it is interpreted.
 func (c *Ctx) ruleUnquote() {
 	r := c.R
-	r.Rule("C08-UNQUOTE", "every consumer of the value of a Parameter lexeme applies Unquote() FIRST: in a call chain rooted at <parameter lexeme>.Value() the next method is Unquote, or the value is handed to a function whose first statement unquotes it (directive.AppendParameter). Parameter lexemes are the elements of Scanner.lastDirectiveParameters, the lexeme of core.processParameter and the file-name lexeme of getIncludedFilePath", 4)
+	r.Rule("C08-UNQUOTE", "every consumer of the value of a Parameter lexeme applies Unquote() FIRST: in a call chain rooted at <parameter lexeme>.Value() the next method is Unquote, or the value is handed to a function that uses its parameter only as the receiver of Unquote() (until it overwrites it with the unquoted value: directive.AppendParameter). Parameter lexemes are the elements of Scanner.lastDirectiveParameters, the lexeme of core.processParameter and the file-name lexeme of getIncludedFilePath", 4)
 	n := 0
 	check := func(f *Fn, isParamLexeme func(e ast.Expr) bool) {
 		pk := f.Pkg
@@ -994,17 +1077,72 @@ func (c *Ctx) ruleUnquote() {
 				cal := callee(pk, p)
 				g := c.fnOf(cal)
 				okFirst := false
-				if g != nil && len(g.Decl.Body.List) > 0 {
-					if as, ok := g.Decl.Body.List[0].(*ast.AssignStmt); ok && len(as.Rhs) == 1 {
-						if strings.HasSuffix(exprString(as.Rhs[0]), ".Unquote()") {
-							okFirst = true
+				rawUse := ""
+				if g != nil {
+					// which parameter of g receives the value
+					pi := -1
+					for k, a := range p.Args {
+						if a.Pos() <= call.Pos() && call.End() <= a.End() {
+							pi = k
 						}
+					}
+					var pobj types.Object
+					k := 0
+					for _, fl := range g.Decl.Type.Params.List {
+						for _, nm := range fl.Names {
+							if k == pi {
+								pobj = g.Pkg.TypesInfo.Defs[nm]
+							}
+							k++
+						}
+					}
+					// every use of that parameter is the receiver of Unquote(), until it is overwritten by its own
+					// unquoted value (p = p.Unquote()): the raw, possibly quoted bytes are never looked at
+					if pobj != nil {
+						okFirst = true
+						reassignedAt := token.NoPos
+						ast.Inspect(g.Decl.Body, func(m ast.Node) bool {
+							if as, ok := m.(*ast.AssignStmt); ok && len(as.Lhs) == 1 && len(as.Rhs) == 1 && reassignedAt == token.NoPos {
+								if lid := identOf(as.Lhs[0]); lid != nil && g.Pkg.TypesInfo.Uses[lid] == pobj {
+									if rc, ok := ast.Unparen(as.Rhs[0]).(*ast.CallExpr); ok {
+										if rs, ok := ast.Unparen(rc.Fun).(*ast.SelectorExpr); ok && rs.Sel.Name == "Unquote" {
+											if rid := identOf(rs.X); rid != nil && g.Pkg.TypesInfo.Uses[rid] == pobj {
+												reassignedAt = as.End()
+											}
+										}
+									}
+								}
+							}
+							return true
+						})
+						inspectWithStack(g.Decl.Body, func(m ast.Node, stack []ast.Node) bool {
+							id, ok := m.(*ast.Ident)
+							if !ok || g.Pkg.TypesInfo.Uses[id] != pobj {
+								return true
+							}
+							if reassignedAt != token.NoPos && id.Pos() >= reassignedAt {
+								return true // the unquoted value by now
+							}
+							if len(stack) >= 2 {
+								if sel, ok := stack[len(stack)-1].(*ast.SelectorExpr); ok && sel.X == ast.Expr(id) && sel.Sel.Name == "Unquote" {
+									return true
+								}
+							}
+							if reassignedAt != token.NoPos && len(stack) >= 1 {
+								if as, ok := stack[len(stack)-1].(*ast.AssignStmt); ok && as.End() == reassignedAt {
+									return true // the left-hand side of p = p.Unquote()
+								}
+							}
+							okFirst = false
+							rawUse = c.pos(id.Pos())
+							return true
+						})
 					}
 				}
 				if okFirst {
-					r.Ok("C08-UNQUOTE", key, "handed to "+cal.Name()+", whose first statement unquotes it", c.pos(call.Pos()))
+					r.Ok("C08-UNQUOTE", key, "handed to "+cal.Name()+", which uses it only through Unquote()", c.pos(call.Pos()))
 				} else {
-					r.Bad("C08-UNQUOTE", key, "the raw parameter value is passed on without being unquoted", c.pos(call.Pos()))
+					r.Bad("C08-UNQUOTE", key, "the raw parameter value is handed to "+cal.Name()+", which looks at it without unquoting it first ("+rawUse+"): a quoted parameter is treated differently from the bare one", c.pos(call.Pos()))
 				}
 			default:
 				r.Bad("C08-UNQUOTE", key, "the raw parameter value is used without Unquote()", c.pos(call.Pos()))
